@@ -65,8 +65,16 @@ type UserStruct struct {
 	WireOrder []string // definition names in wire order
 }
 
-// Shipped and Users are filled by registry_gen.go.
+// OversizeStruct is a generated definition with one array field of 256 bytes or more.
+type OversizeStruct struct {
+	Msg   message.Message
+	Bytes int
+	Desc  string
+}
+
+// Shipped, Users and Oversize are filled by registry_gen.go.
 var (
-	Shipped []DialectReg
-	Users   []UserStruct
+	Shipped  []DialectReg
+	Users    []UserStruct
+	Oversize []OversizeStruct
 )
